@@ -4,7 +4,13 @@
 (* crate, exported for replay on the real code.  A history variable (kept  *)
 (* out of the VIEW, so that it does not multiply states) records the       *)
 (* operations that led to each state; an invariant prints it, one          *)
-(* behaviour per distinct abstract state (breadth-first: a shortest one).  *)
+(* behaviour per distinct pair (abstract state, branch of the model taken  *)
+(* by the last operation) -- breadth-first, hence a shortest one.  The     *)
+(* branch tag (fast / slow path, in-place / fallback / lucky / reclaim,    *)
+(* last / not last) is part of the VIEW: a state that two different        *)
+(* branches lead to is exported once per branch, so that every branch of   *)
+(* ArenaCore's case analysis is replayed into every state it can produce,  *)
+(* not only along the first path breadth-first search happens to find.     *)
 (* The harness executes each behaviour on the crate (plus a fixed probe    *)
 (* suffix) and the resulting trace is validated by ArenaMonitor and by     *)
 (* ArenaTrace, i.e. compared step by step with this very model.            *)
@@ -15,8 +21,20 @@
 EXTENDS Arena
 
 CONSTANT MaxDepth
-VARIABLE hist
-gvars == <<ar, sent, heap, live, nslot, err, hist>>
+VARIABLES hist, tag
+gvars == <<ar, sent, heap, live, nslot, err, hist, tag>>
+
+\* which branch of ArenaCore's definitions an operation takes in the current state
+AllocBranch(s, al) == IF FastAddr(ar.ma, CurData(ar, sent), CurFinger(ar, sent), s, al) # NoAddr THEN "fast" ELSE "slow"
+DeallocBranch(b) == IF IsLast(ar, sent, b.addr) THEN "last" ELSE "buried"
+GrowBranch(b, inc, al) ==
+  IF b.align >= al /\ IsLast(ar, sent, b.addr)
+     /\ FastAddr(ar.ma, CurData(ar, sent), CurFinger(ar, sent), RoundUp(b.size + inc, ar.ma) - b.size, b.align) # NoAddr
+  THEN "inplace" ELSE "fallback"
+ShrinkBranch(b, dec, al) ==
+  IF b.align < al THEN (IF b.addr % al = 0 THEN "lucky" ELSE "realloc")
+  ELSE IF IsLast(ar, sent, b.addr) /\ RoundDown(dec, Max(al, ar.ma)) >= (b.size + 1) \div 2 THEN "reclaim"
+  ELSE "keep"
 
 Before(o, b) == o.addr < b.addr \/ (o.addr = b.addr /\ (o.size < b.size \/ (o.size = b.size /\ o.align < b.align)))
 Rank(b) == Cardinality({o \in live : Before(o, b)})
@@ -24,23 +42,24 @@ Rank(b) == Cardinality({o \in live : Before(o, b)})
 Placed(ans) == IF ans = <<>> \/ ans[Len(ans)] = 0 THEN 0
                ELSE IF (ans[Len(ans)] % SLOT) = 0 THEN 0 ELSE 1
 Rec(t) == hist' = Append(hist, t)
+Tag(t) == tag' = t
 
 GNext ==
   /\ Len(hist) < MaxDepth
-  /\ \/ \E ma \in MinAligns : Create(ma) /\ Rec(<<"New", ma, -1, 0>>)
-     \/ \E ma \in MinAligns, cap \in Caps : CreateWithCapacity(ma, cap) /\ Rec(<<"New", ma, cap, 0>>)
+  /\ \/ \E ma \in MinAligns : Create(ma) /\ Rec(<<"New", ma, -1, 0>>) /\ Tag("new")
+     \/ \E ma \in MinAligns, cap \in Caps : CreateWithCapacity(ma, cap) /\ Rec(<<"New", ma, cap, 0>>) /\ Tag("new")
      \/ \E s \in Sizes, al \in Aligns : \E ans \in AnswerSeqs(ChunkAlign(al)) :
-          AllocOp(s, al, ans) /\ Rec(<<"Layout", s, al, Placed(ans)>>)
-     \/ \E b \in live : DeallocOp(b) /\ Rec(<<"Dealloc", Rank(b), 0, 0>>)
+          AllocOp(s, al, ans) /\ Rec(<<"Layout", s, al, Placed(ans)>>) /\ Tag(<<"alloc", AllocBranch(s, al)>>)
+     \/ \E b \in live : DeallocOp(b) /\ Rec(<<"Dealloc", Rank(b), 0, 0>>) /\ Tag(<<"dealloc", DeallocBranch(b)>>)
      \/ \E b \in live, inc \in GrowIncs, al \in Aligns : \E ans \in AnswerSeqs(ChunkAlign(al)) :
-          GrowOp(b, inc, al, ans) /\ Rec(<<"Grow", Rank(b), inc, al, Placed(ans)>>)
+          GrowOp(b, inc, al, ans) /\ Rec(<<"Grow", Rank(b), inc, al, Placed(ans)>>) /\ Tag(<<"grow", GrowBranch(b, inc, al)>>)
      \/ \E b \in live, dec \in ShrinkDecs, al \in Aligns : \E ans \in AnswerSeqs(ChunkAlign(al)) :
-          ShrinkOp(b, dec, al, ans) /\ Rec(<<"Shrink", Rank(b), dec, al, Placed(ans)>>)
-     \/ ResetOp /\ Rec(<<"Reset", 0, 0, 0>>)
-     \/ \E lim \in Limits \cup {NoLimit} : SetLimit(lim) /\ Rec(<<"Limit", lim, 0, 0>>)
+          ShrinkOp(b, dec, al, ans) /\ Rec(<<"Shrink", Rank(b), dec, al, Placed(ans)>>) /\ Tag(<<"shrink", ShrinkBranch(b, dec, al)>>)
+     \/ ResetOp /\ Rec(<<"Reset", 0, 0, 0>>) /\ Tag("reset")
+     \/ \E lim \in Limits \cup {NoLimit} : SetLimit(lim) /\ Rec(<<"Limit", lim, 0, 0>>) /\ Tag("limit")
 
-GInit == Init /\ hist = <<>>
+GInit == Init /\ hist = <<>> /\ tag = "init"
 GSpec == GInit /\ [][GNext]_gvars
-GView == View
+GView == <<View, tag>>
 Emit == (Len(hist) = 0) \/ PrintT(<<"BEH", hist>>)
 =============================================================================
